@@ -238,24 +238,42 @@ Section WithConstraints.
     validate_reference_tags (client_tags sort pages) ver.
 
   (* Resolver.Resolve, one dependency kept in an OCI repository (internal/resolver/resolver.go
-     134-196; the surrounding loop is Index.resolve_loop): an unparsable range fails at once;
-     an explicit version stands for the whole tag list, otherwise Client.Tags; the first tag
-     NewVersion reads and the range accepts is locked (no identical-string pass here).
-     As the code is: [found] starts as true and only the index branch resets it, so in this
-     branch nothing is ever reported as missing — when no tag is in range the lock keeps the
-     initial Version, the text of the range itself (known finding K-C18-1). *)
+     134-198; the surrounding loop is Index.resolve_loop): an unparsable range fails at once;
+     an explicit version stands for the whole tag list and [found] stays true; otherwise
+     Client.Tags, and [found] is reset once the tags were retrieved (fix ac0e5ef): the first tag
+     NewVersion reads and the range accepts is locked (no identical-string pass here), none
+     is reported as missing. *)
   Definition resolve_oci_tags (tags : list string) (ver : string) : dep_result :=
+    if negb (cvalid ver) then DFail
+    else if is_valid_version ver then
+           match find (tag_sat sat ver) [ver] with
+           | Some t => DLocked t                          (* v.Original() *)
+           | None => DLocked ver                          (* found is true: the initial Version *)
+           end
+    else match find (tag_sat sat ver) tags with
+         | Some t => DLocked t
+         | None => DMissing
+         end.
+
+  (* the branch before fix ac0e5ef: [found] started as true and only the index branch reset
+     it, so nothing was ever reported as missing here — when no tag was in range the lock kept
+     the initial Version, the text of the range itself *)
+  Definition resolve_oci_tags_unrepaired (tags : list string) (ver : string) : dep_result :=
     if negb (cvalid ver) then DFail
     else
       let vs := if is_valid_version ver then [ver] else tags in
       match find (tag_sat sat ver) vs with
-      | Some t => DLocked t                               (* v.Original() *)
-      | None => DLocked ver                               (* found is still true: not missing *)
+      | Some t => DLocked t
+      | None => DLocked ver
       end.
 
   Definition resolve_oci (sort : list sversion -> list sversion)
              (pages : list (list string)) (ver : string) : dep_result :=
     resolve_oci_tags (client_tags sort pages) ver.
+
+  Definition resolve_oci_unrepaired (sort : list sversion -> list sversion)
+             (pages : list (list string)) (ver : string) : dep_result :=
+    resolve_oci_tags_unrepaired (client_tags sort pages) ver.
 End WithConstraints.
 
 (* ---- specification vocabulary (used by the statements in Props/C18.v) ---- *)
